@@ -12,6 +12,7 @@ package routing
 
 //@ func (s *StrictStrategy) GetRoutableEndpoints
 //@   property C09
+//@   refines ports.ModelRoutingStrategy.GetRoutableEndpoints
 //@   requires allNonNil(healthyEndpoints)
 //@   loop 1 invariant modelEndpointMap != nil && fresh(modelEndpointMap)
 //@   loop 1 invariant forall k string :: modelEndpointMap[k] == (exists j int :: 0 <= j && j < i$1 && modelEndpoints[j] == k)
@@ -32,6 +33,7 @@ package routing
 
 //@ func (s *OptimisticStrategy) GetRoutableEndpoints
 //@   property C09
+//@   refines ports.ModelRoutingStrategy.GetRoutableEndpoints
 //@   requires allNonNil(healthyEndpoints)
 //@   loop 1 invariant modelEndpointMap != nil && fresh(modelEndpointMap)
 //@   loop 1 invariant forall k string :: modelEndpointMap[k] == (exists j int :: 0 <= j && j < i$1 && modelEndpoints[j] == k)
@@ -52,8 +54,9 @@ package routing
 
 //@ func (s *DiscoveryStrategy) GetRoutableEndpoints
 //@   property C09
+//@   refines ports.ModelRoutingStrategy.GetRoutableEndpoints
 //@   replay routing_discovery_fallback : s.options.FallbackBehavior
-//@   requires s != nil && allNonNil(healthyEndpoints)
+//@   requires allNonNil(healthyEndpoints)
 //@   modifies domain.Endpoint.Status, domain.Endpoint.Name, domain.Endpoint.URLString, domain.Endpoint.Priority, domain.Endpoint.Type, domain.Endpoint.NextCheckTime, domain.Endpoint.LastChecked, domain.Endpoint.ConsecutiveFailures, domain.Endpoint.BackoffMultiplier, domain.Endpoint.LastLatency
 //@   loop 1 invariant modelEndpointMap != nil && fresh(modelEndpointMap)
 //@   loop 1 invariant forall k string :: modelEndpointMap[k] == (exists j int :: 0 <= j && j < i$1 && modelEndpoints[j] == k)
